@@ -81,7 +81,7 @@ CLAIMED = {
    design="DESIGN.md §3 C08"),
  "C19": dict(
    technique="bounded-exhaustive enumeration (E1): full product of collateral input sets x helper entry points x boundary arguments x both call orders on the real builder; the body fields 13/16/17 are re-parsed and judged as an equation on whole values",
-   text="Collateral input sets of size 1..3 (thorough 1..5) over 5 candidates (ADA at three widths, ADA + asset A, ADA + A + B) x set_collateral_return_and_total with 9 return coins (around the return's own min-ADA, around the input total, 0, 2^16) x 6 asset choices (exactly the inputs' assets, fewer, more, a different asset, none, partial) and set_total_collateral_and_return with 9 totals (0, 1, around inputs - min-ADA, = inputs, > inputs, 2^16, 2^32) x coins_per_byte {4310, 1} x both orders of collateral vs balancing; the percentage helper over collateral sets x percentages {0, 1, 99, 100, 150, 2^32, 2^64-1} x 4 output sizes (one beyond everything offered) x 2 strategies (RNG answers all explored). Oracle on the parsed body: table values of body[13] == value(body[16]) + body[17] for lovelace and every asset, return >= coins_per_byte*(160+size), total >= ceil(fee*pct/100), and after an Err neither field is set.",
+   text="Collateral input sets of size 1..3 (thorough 1..5) over 5 candidates (ADA at three widths, ADA + asset A, ADA + A + B) x set_collateral_return_and_total with 9 return coins (around the return's own min-ADA, around the input total, 0, 2^16) x 8 asset choices (exactly the inputs' assets, fewer, more, another policy, none, partial, another asset name under a held policy x2) and set_total_collateral_and_return with 9 totals (0, 1, around inputs - min-ADA, = inputs, > inputs, 2^16, 2^32) x coins_per_byte {4310, 1} x both orders of collateral vs balancing; the percentage helper over collateral sets x percentages {0, 1, 99, 100, 150, 2^32, 2^64-1} x 4 output sizes (one beyond everything offered) x 2 strategies (RNG answers all explored). Oracle on the parsed body: table values of body[13] == value(body[16]) + body[17] for lovelace and every asset, return >= coins_per_byte*(160+size), total >= ceil(fee*pct/100), and after an Err neither field is set.",
    note="Trusted: notes/ledger_rules.md §7, refcbor. Raw pass-through setters excluded by the reading in DESIGN.",
    design="DESIGN.md §3 C19"),
  "C16": dict(
